@@ -796,7 +796,7 @@ func nontrivial(c, res string) bool {
 }
 
 func main() {
-	lib.Main(lib.Prop{ID: "C15", Gen: gen, Run: cached, Oracle: oracle, Nontrivial: nontrivial, PanicClass: panicClass})
+	lib.Main(lib.Prop{ID: "C15", Gen: gen, Run: cached, Oracle: oracle, Nontrivial: nontrivial, PanicClass: panicClass, Neighbours: neighbours})
 }
 
 var _ = ast.Operand(0)
